@@ -199,6 +199,9 @@ func (s *KVSnapshot) SetSnapshotTS(ts uint64) {
 	s.mu.Unlock()
 	// And also remove the minCommitTS pushed information.
 	s.resolvedLocks = util.TSSet{}
+	// The locks recorded as "committed at or before the snapshot" were judged against the old
+	// timestamp; reading through them at an older timestamp would return versions from the future.
+	s.committedLocks = util.TSSet{}
 }
 
 // IsInternal returns if the KvSnapshot is used by internal executions.
